@@ -18,6 +18,7 @@ from vlib import common
 from checks import _signal as S
 
 LEVEL = "proof"
+COVER_RULE = 'covering set (checks/_signal.py cover): a seeded pool of candidate configurations - %s - is planned by the REAL library; every candidate is labelled with its plan class (per stage: half-band / dft stage with F-domain or time-domain rate change, decimation grid aligned to block_len or not / poly-phase order) and its knob; one member of EVERY (plan class, knob) pair is measured, cheapest implementation periods first, members rotating with the seed; the run reports a violation when a required planner path or engine (REQUIRED_CLASSES, REQUIRED_ORDERS, cr32 / cr32s / cr64 / cr64s) is not hit. '
 
 
 def lim1(bits):
@@ -85,7 +86,7 @@ def job_c12(args):
         if not info.get("engine", "").startswith("cr") or S.bits_of(info) < 15:
             return {"cfg": c, "label": S.cfg_label(c), "skipped": "property does not speak (precision < 15 bits)"}
         if S.f1_exact(info):
-            return {"cfg": c, "label": S.cfg_label(c), "skipped": "known finding F1 signature", "f1": True}
+            return {"cfg": c, "label": S.cfg_label(c), "skipped": "known finding F1 signature", "f1": True, "f1_linear": info["q"]["phase"] == 50}
         bits = S.bits_of(info)
         rg = np.random.default_rng(seed)
         ratio = float(c["ir"]) / float(c["orr"])
@@ -369,12 +370,7 @@ def run(ctx):
                     "margins(measured/2^(1-bits))": {k: round(t[k] / lim, 5) for k, _ in CLAUSES if k in t},
                     "scale_pow2": t["scale_pow2"], "scale_pow2_bit_exact": t["scale_pow2_exact"], "shift_impl_bit_exact": t.get("shift_impl_exact")})
     f1_seen = [t for t in res if t.get("f1")]
-    ctx.count("f1_signature_configurations_set_aside", len(f1_seen))
-    for txt in S.pool_map(probe_f1_dc, [t["cfg"] for t in f1_seen[:4]]):
-        if txt and "F1" in S.ACTIVE:
-            ctx.known("F1", txt)
-        elif txt:
-            ctx.violation("C12: " + txt, {"finding": "F1 is not listed as known for this property any more", "what": txt}, no_input=True)
+    S.report_f1(ctx, f1_seen, probe_f1_dc, "C12")
     ctx.count("paired_run_cases", n_cases)
     miss = S.missing_classes(classes_hit, S.REQUIRED_CLASSES + S.REQUIRED_ORDERS + [("cubic stage forced to carry the gain (ratio 1)", r"^cubic$")])
     miss += ["engine " + e for e in S.REQUIRED_ENGINES if e not in engines_hit]
@@ -390,9 +386,14 @@ def run(ctx):
     ctx.cov["worst_margins_note"] = "ratios measured/bound (< 1 holds); bound = 2^(1-bits) of full scale"
     ctx.count("evaluations", n_cases + len(plans) + sum(1 for r in rows if "pass" in r))
     ctx.cov["distinct_nontrivial"] = len(sigs)
-    ctx.cov["rule"] = ("paired runs: the fixed core of 6 rational configurations (one per planner path; two of them with >= 2 designed stages, i.e. a "
-                       "pre and a later stage for the gain hand-over) plus seeded random configurations (any ratio incl. irrational, recipe, flags, "
-                       "engine); signals: seeded random 5-tone in-band sums and uniform broadband noise, weights and scale factors random. "
+    ctx.cov["rule"] = ("paired runs: the fixed core of 6 rational configurations plus the " + COVER_RULE % (
+                       "coprime ratios a:b up to 12, halving chains, large up-sampling, audio rates and 25 irrational ratios x 14 recipes x engine x interpolation "
+                       "order (auto, forced low / high) x knob in {recipe as is, a non-linear phase_response, moved band edges}") +
+                       "Ratio 1 with a gain (the cubic stage forced to carry it) is added for both engine widths. Every case: seeded random 5-tone in-band "
+                       "sums and uniform broadband noise over a stream spanning >= 3.3 blocks of every dft stage of the plan; superposition; io_spec.scale "
+                       "(power of two, general, negative); DC; a datatype pair with different full scales (typed run vs scale x the float64 run of the same "
+                       "sample values); shift covariance per sample in max norm at the implementation period (1 and k in 2..7 periods, broadband, beyond the "
+                       "horizon) and at the reduced period (in-band, steady state), number of out-of-bound samples recorded. "
                        "distinct_nontrivial = distinct (engine, exported stage plan, kind of measurement) tuples actually measured.")
     ctx.assume(
         "the Lean theorems are about the MODEL (pipelines of ring-linear kernels, exact arithmetic); that the compiled floating-point kernels are "
@@ -401,7 +402,13 @@ def run(ctx):
         "shift covariance at the implementation period is asserted beyond the start-up horizon only (intermediate streams drop their negative-time "
         "part); at the reduced period only for in-band signals in steady state (it is a spectral fact: C01/C02)",
         "that the planner never emits half-band stages alone (hypothesis of gain_always_carried) is checked on exported plans of the sweep, not proved",
-        "configurations matching known finding F1 are skipped and counted",
+        "plans matching known finding F1 (a dft stage with power-of-two L not dividing block_len) receive no signal: they are set aside, counted, "
+        "and up to 4 of them are probed with a constant input in a child process (KNOWN-FINDING line when the misbehaviour shows)",
+        "datatype clause: the typed run may differ from io_spec.scale x the float64 run by the output format's resolution (integer rounding, TPDF "
+        "dither for int16, float32 mantissa) plus scale x 2^(1-bits)",
+        "known findings of the pinned tree (known_findings.d/signal.json: F-PH1 on DC / spectral clauses, F-SG4 on the clauses that move the gain of a "
+        "plan whose poly-phase stage carries it) are recognised by a configuration/plan signature AND a symptom bound; their margins are listed "
+        "separately under worst_margins ([... signature])",
     )
     if broken and not ctx.violations:
         ctx.violation("Lean obligations of C12 no longer check: " + "; ".join(broken)[:1500],
